@@ -34,6 +34,8 @@ type verifConn struct {
 	killed  bool // the harness has told Run to return
 	dead    bool // Run has returned
 	active  int  // Invoke calls in progress
+	completing bool // a completion has been handed to the Invoke in progress
+	user    int  // caller running the Invoke in progress
 }
 
 func (c *verifConn) Run(ctx context.Context) error {
@@ -60,7 +62,9 @@ func (c *verifConn) Invoke(ctx context.Context, input bin.Encoder, output bin.De
 		h.deadUse++
 	}
 	c.active++
+	c.completing = false
 	k := input.(verifCaller).k
+	c.user = k
 	h.using[k] = c.id
 	h.mu.Unlock()
 	var err error
@@ -86,6 +90,9 @@ func (verifCaller) Decode(*bin.Buffer) error { return nil }
 
 type verifPool struct {
 	mu       sync.Mutex
+	hooks    int // events still allowed inside call-outs (newConn, ctx.Err)
+	mainRun  bool
+	parked   []chan struct{}
 	dc       *DC
 	max      int64
 	conns    []*verifConn
@@ -111,6 +118,19 @@ func (h *verifPool) live() int {
 }
 
 func (h *verifPool) newConn() Conn {
+	// call-out: the connection constructor may take a while; another caller may arrive meanwhile
+	if h.hooks > 0 {
+		for k := 0; k < 3; k++ {
+			if !h.started[k] {
+				if verifrt.Fork("hook@newconn", 2) == 1 {
+					h.hooks--
+					h.start(k)
+					h.settle()
+				}
+				break
+			}
+		}
+	}
 	h.mu.Lock()
 	defer h.mu.Unlock()
 	c := &verifConn{h: h, id: len(h.conns), ready: make(chan struct{}), kill: make(chan struct{}), finish: make(chan error)}
@@ -121,13 +141,73 @@ func (h *verifPool) newConn() Conn {
 	return c
 }
 
+// settle: see the rpc scenario — verifrt.Settle on the harness goroutine, a park/release handshake
+// from a call-out running on another goroutine.
+func (h *verifPool) settle() {
+	if h.mainRun {
+		h.mainSettle()
+		return
+	}
+	w := make(chan struct{})
+	h.mu.Lock()
+	h.parked = append(h.parked, w)
+	h.mu.Unlock()
+	<-w
+}
+
+func (h *verifPool) mainSettle() {
+	h.mainRun = false
+	for {
+		verifrt.Settle()
+		h.mu.Lock()
+		n := len(h.parked)
+		var w chan struct{}
+		if n > 0 {
+			w = h.parked[n-1]
+			h.parked = h.parked[:n-1]
+		}
+		h.mu.Unlock()
+		if w == nil {
+			break
+		}
+		close(w)
+	}
+	h.mainRun = true
+}
+
+// verifCtx is the caller's context; its Err method is a call-out of acquire (right after it
+// decided to give up) at which the harness may complete a request elsewhere, so that a connection
+// is released while this caller is on its way out.
+type verifCtx struct {
+	context.Context
+	h *verifPool
+}
+
+func (c verifCtx) Err() error {
+	h := c.h
+	if h.hooks > 0 && c.Context.Err() != nil {
+		for _, vc := range h.conns {
+			if h.completable(vc) && !vc.dead && !vc.killed {
+				if verifrt.Fork("hook@ctxerr", 2) == 1 {
+					h.hooks--
+					vc.completing = true
+					vc.finish <- nil
+					h.settle()
+				}
+				break
+			}
+		}
+	}
+	return c.Context.Err()
+}
+
 func (h *verifPool) start(k int) {
 	ctx, cancel := context.WithCancel(context.Background())
 	h.cancel[k] = cancel
 	h.started[k] = true
 	h.using[k] = -1
 	go func() {
-		err := h.dc.Invoke(ctx, verifCaller{k}, verifCaller{k})
+		err := h.dc.Invoke(verifCtx{ctx, h}, verifCaller{k}, verifCaller{k})
 		h.mu.Lock()
 		h.errs[k] = err
 		h.returned[k] = true
@@ -158,7 +238,7 @@ func (h *verifPool) enabled() []verifEvent {
 		if !c.killed {
 			ev = append(ev, verifEvent{2, c.id})
 		}
-		if c.active > 0 {
+		if h.completable(c) {
 			ev = append(ev, verifEvent{4, c.id}, verifEvent{5, c.id}, verifEvent{6, c.id})
 		}
 	}
@@ -170,7 +250,16 @@ func (h *verifPool) enabled() []verifEvent {
 	return ev
 }
 
+// completable: an Invoke is in progress on c, nothing has been handed to it yet and it is not
+// already on its way out because its caller was cancelled.
+func (h *verifPool) completable(c *verifConn) bool {
+	return c.active > 0 && !c.completing && !h.canceled[c.user]
+}
+
 func (h *verifPool) apply(e verifEvent) {
+	if e.kind >= 4 {
+		h.conns[e.arg].completing = true
+	}
 	switch e.kind {
 	case 0:
 		h.start(e.arg)
@@ -244,7 +333,7 @@ func (h *verifPool) accounting() (liveReady, connecting, inUse, free, handing, w
 }
 
 func verifPoolScenario(steps int, monitor func(h *verifPool, step int)) *verifPool {
-	h := &verifPool{}
+	h := &verifPool{hooks: 1, mainRun: true}
 	h.max = int64(1 + verifrt.Fork("max", 2))
 	h.dc = NewDC(context.Background(), 2, h.newConn, DCOptions{MaxOpenConnections: h.max})
 	for s := 0; s < steps; s++ {
@@ -254,7 +343,7 @@ func verifPoolScenario(steps int, monitor func(h *verifPool, step int)) *verifPo
 		}
 		e := ev[verifrt.Fork("ev", len(ev))]
 		h.apply(e)
-		verifrt.Settle()
+		h.mainSettle()
 		if monitor != nil {
 			monitor(h, s)
 		}
@@ -271,7 +360,8 @@ func (h *verifPool) stop() {
 		}
 	}
 	h.dc.cancel()
-	verifrt.Settle()
+	h.hooks = 0
+	h.mainSettle()
 }
 
 func verifPoolSteps() int {
